@@ -42,7 +42,7 @@ func ParallelFor(r *Report, n int, f func(i int), onPanic func(i int, msg string
 				if i >= n {
 					return
 				}
-				if i%256 == 0 && r.Expired() {
+				if (i%256 == 0 || n < 1<<16) && r.Expired() {
 					atomic.StoreInt32(&capped, 1)
 				}
 				if atomic.LoadInt32(&capped) == 1 {
